@@ -18,6 +18,10 @@ fn alphabet() -> Vec<Action> {
             a.push(Action::Exec { id, bind, null_first: false, shim_ignores: false });
         }
     }
+    // chunks large enough to make an implementation's buffers grow (2000 / 12000 bytes)
+    a.push(Action::Long { id: 1, param: 0, chunk: 3 });
+    a.push(Action::Long { id: 1, param: 1, chunk: 4 });
+    a.push(Action::Long { id: 2, param: 0, chunk: 4 });
     a.push(Action::Long { id: 1, param: 5, chunk: 2 });
     a.push(Action::Exec { id: 1, bind: Bind::C, null_first: true, shim_ignores: false });
     a.push(Action::Close { id: 1 });
@@ -90,7 +94,7 @@ pub fn build(quick: bool) -> Check {
     Check {
         id: "C17",
         level: "model_checking",
-        rule: format!("two prepared statements of 2 parameters; histories over {} actions: LONG_DATA(id 1|2, parameter 0|1|out of range, chunk \"\"|\"xy\"|\"z\"), EXECUTE(bind LONG | VAR_STRING | reuse; first parameter NULL), CLOSE, re-PREPARE; the client omits inline bytes for parameters with pending long data. Full tree to depth {} plus BFS over model states (pending data capped at 4 bytes per parameter) with two witnesses; plus a chunk of 2*(2^24-1)+5 bytes; plus long data followed by 8..600 inline executions of the same statement. Oracle: the parameter is the in-order concatenation for that statement and parameter, the other parameters keep their inline values, delivery happens to exactly one execution and never to another statement.", alpha.len(), if quick {4} else {6}),
+        rule: format!("two prepared statements of 2 parameters; histories over {} actions: LONG_DATA(id 1|2, parameter 0|1|out of range, chunk \"\"|\"xy\"|\"z\"; 2000- and 12000-byte chunks), EXECUTE(bind LONG | VAR_STRING | reuse; first parameter NULL), CLOSE, re-PREPARE; the client omits inline bytes for parameters with pending long data. Full tree to depth {} plus BFS over model states (pending data capped at 4 bytes per parameter) with two witnesses; plus a chunk of 2*(2^24-1)+5 bytes; plus long data followed by 8..600 inline executions of the same statement; 2..1000 chunks streamed round-robin to 2-3 parameters; 2000/12000/70000-byte buffers abandoned by CLOSE or emptied by EXECUTE followed by small long data. Oracle: the parameter is the in-order concatenation for that statement and parameter, the other parameters keep their inline values, delivery happens to exactly one execution and never to another statement.", alpha.len(), if quick {4} else {6}),
         assumptions: vec!["an empty chunk still marks the parameter as supplied by long data (MySQL semantics: the value is the empty string)".into()],
         bounds: json!({"tree_depth": if quick {4} else {6}, "alphabet": alpha.len()}),
         exhaustive: true,
